@@ -458,8 +458,9 @@ def compare(impl, model, tol=0, path=""):
                 la, lb = impl[k], model[k]
                 if len(la) != len(lb):
                     return f"{path}.{k}: length {len(la)} vs {len(lb)}"
+                ktol = max(tol, 1e-5) if k == "normsq" else tol  # (sqrt x)^2 is not exact (float32: 1e-7)
                 for i, (x, y) in enumerate(zip(la, lb)):
-                    if not _cmp_rat(x, y, tol):
+                    if not _cmp_rat(x, y, ktol):
                         return f"{path}.{k}[{i}]: impl={x} model={y}"
             elif k == "f":
                 if not _cmp_rat(impl[k], model[k], tol):
